@@ -8,6 +8,7 @@ import (
 
 	"github.com/massnetorg/mass-core/consensus"
 	"massnet.org/mass-wallet/api"
+	"massnet.org/mass-wallet/masswallet"
 )
 
 func main() {
@@ -30,4 +31,11 @@ func main() {
 	z("LenRemarksMax", api.LenRemarksMax)
 	z("LenMnemonicMax", api.LenMnemonicMax)
 	z("LenMnemonicMin", api.LenMnemonicMin)
+	// the background task queue (masswallet/task.go): the "busy" threshold of the API and the capacity the
+	// queue is actually created with for 0 and for 10 wallets (measured on the constructor, not read from its text)
+	z("MaxWaitingTaskNum", masswallet.MaxWaitingTaskNum)
+	z("TaskQueueCap0", cap(masswallet.NewWalletTaskChan(0).C))
+	z("TaskQueueCap10", cap(masswallet.NewWalletTaskChan(10).C))
+	z("MASSIP0001MaxValidPeriod", consensus.MASSIP0001MaxValidPeriod)
+	z("MASSIP0002BindingLockedPeriod", consensus.MASSIP0002BindingLockedPeriod)
 }
